@@ -42,7 +42,7 @@ def feature(text):
     if any(c in u for u in urls for c in URLACTIVE):
         return "url-with-tex-active-character"
     if "$" in text:
-        return "math"
+        return "math-span-ending-in-escaped-backslash" if "\\\\$" in text else "math"
     return "url" if urls else "text"
 
 
@@ -56,7 +56,7 @@ def rand_text(r):
         if k < .7:
             parts.append("".join(r.choice(ALPHABET) for _ in range(r.randint(1, 10))))
         elif k < .85:
-            parts.append("$" + "".join(r.choice(MATHCH) for _ in range(r.randint(1, 6))).strip() + "x$")
+            parts.append("$" + "".join(r.choice(MATHCH) for _ in range(r.randint(1, 6))).strip() + ("x$" if r.random() < .85 else "\\\\$"))
         else:
             parts.append(r.choice(["http://", "https://", "www."]) + _urlchars(r) + "." + r.choice(["org", "com/a_b", "io/x#y"]))
     return " ".join(parts)
@@ -119,7 +119,7 @@ def direct_roundtrip(t, mask_math=True, mask_url=True):
         return False
 
 
-_MATH = re.compile(r"\$[abxyz012^_+\-= ]*x\$")
+_MATH = re.compile(r"\$[abxyz012^_+\-= ]*(?:x|\\\\)\$")       # a span ends in x or in the math line break '\\\\' 
 _URL = re.compile(r"(https?://|www\.)[abcxyz0189:/._\-#?=%~&]+")
 LIGATURES = ("--", "``", "''", "!`", "?`")
 
@@ -220,12 +220,12 @@ def check_rt(case, ctx):
     ctx.mon("roundtrip_nameparts")
     np = e["author"]
     if [np.first, np.von, np.last, np.jr] != [[t[2]], [], [t[0], t[1]], []]:
-        worst = next((f for f in ("url-with-tex-active-character",) if any(feature(x) == f for x in good)), "")
+        worst = next((f for f in ("url-with-tex-active-character", "math-span-ending-in-escaped-backslash") if any(feature(x) == f for x in good)), "")
         out.append(Violation("roundtrip", "C18:roundtrip:nameparts" + (":" + worst if worst else ""), dict(texts=good, got=srepr(np))))
     ctx.mon("roundtrip_string_block")
     s = l2.blocks[0]
     if not isinstance(s.value, str) or s.value != t[2]:
-        out.append(Violation("roundtrip", f"C18:roundtrip:string-block:{type(s.value).__name__}" + (":url-with-tex-active-character" if feature(t[2]) == "url-with-tex-active-character" else ""),
+        out.append(Violation("roundtrip", f"C18:roundtrip:string-block:{type(s.value).__name__}" + (":" + feature(t[2]) if feature(t[2]) in ("url-with-tex-active-character", "math-span-ending-in-escaped-backslash") else ""),
                              dict(text=t[2], got=srepr(s.value))))
     return out
 
